@@ -541,8 +541,13 @@ class Doins(_InstallWrapper):
 
     def _install_targets(self, targets):
         files, dirs = partition(targets, predicate=os.path.isdir)
-        if self.opts.recursive:
-            self.install_from_dirs(dirs)
+        # TODO: add peekable class for iterables to avoid list conversion
+        dirs = list(dirs)
+        if dirs:
+            if self.opts.recursive:
+                self.install_from_dirs(dirs)
+            else:
+                raise IpcCommandError(f"{dirs[0]!r} is a directory, missing -r option?")
         self.install((f, os.path.basename(f)) for f in files)
 
 
